@@ -100,7 +100,11 @@ func pickVia(ws []uint32, n int) (counts []int, errs, panics int, panicMsg strin
 // With `alt`, every call is followed by a call of another method that a second weighted route ([1,1]) of the same table
 // serves: the split of each route must be its own, however calls to different routes alternate (nothing is shared
 // between routes).
+// foreignPicks: calls of the last pickViaDecoded run that were sent to a cluster the matched route does not list.
+var foreignPicks int
+
 func pickViaDecoded(ws []uint32, n int, alt bool) (counts []int, errs, panics int, panicMsg string, altCounts []int) {
+	foreignPicks = 0
 	stub := newStub()
 	useBackend(stub)
 	idx := map[string]int{}
@@ -168,7 +172,7 @@ func pickViaDecoded(ws []uint32, n int, alt bool) (counts []int, errs, panics in
 			if j, ok := idx[rr.ClusterPicked]; ok {
 				counts[j]++
 			} else {
-				errs++
+				foreignPicks++ // a cluster of ANOTHER route of the table (e.g. the shadowed catch-all behind this one)
 			}
 		}
 	}
@@ -287,11 +291,67 @@ func runC09(c *ctx) {
 			ws[i] = uint64(w)
 		}
 		c.count("via-decoder", 1)
-		c.emit(obj{"ws": ws, "n": n, "via": "decoded", "obs": obj{"counts": counts, "errs": errs, "panics": panics, "panicMsg": msg}})
+		c.emit(obj{"ws": ws, "n": n, "via": "decoded", "obs": obj{"counts": counts, "errs": errs, "panics": panics, "panicMsg": msg, "foreign": foreignPicks}})
 		if alt {
 			// the other route's own split, sampled in strict alternation with this one
 			c.count("interleaved-routes", 1)
 			c.emit(obj{"ws": []uint64{1, 1}, "n": n, "via": "interleaved", "with": ws, "obs": obj{"counts": altCounts, "errs": n - altCounts[0] - altCounts[1], "panics": 0, "panicMsg": ""}})
 		}
 	}
+	// a weight shift that arrives while the router reads the table for an earlier call
+	for _, sh := range [][2][]uint32{{{1, 0}, {0, 1}}, {{100, 0}, {0, 100}}, {{80, 20}, {20, 80}}, {{1, 1, 0}, {0, 0, 5}}} {
+		counts, errs, foreign := pickAcrossPush(sh[0], sh[1], n/4)
+		ws := make([]uint64, len(sh[1]))
+		for i, w := range sh[1] {
+			ws[i] = uint64(w)
+		}
+		c.count("across-push", 1)
+		c.emit(obj{"ws": ws, "n": n / 4, "via": "across-push", "from": sh[0], "obs": obj{"counts": counts, "errs": errs, "panics": 0, "panicMsg": "", "foreign": foreign}})
+	}
+}
+
+// pickAcrossPush: the weights of a route shift from ws0 to ws1 while the router reads the table for its first call (the
+// push runs the registered update handlers, then replaces the table). Every LATER call is sampled against ws1.
+func pickAcrossPush(ws0, ws1 []uint32, n int) (counts []int, errs, foreign int) {
+	stub := newStub()
+	useBackend(stub)
+	table := func(ws []uint32) xdsresource.Resource {
+		var cls []*v3routepb.WeightedCluster_ClusterWeight
+		for i, w := range ws {
+			cls = append(cls, &v3routepb.WeightedCluster_ClusterWeight{Name: fmt.Sprintf("c%d", i), Weight: wrapperspb.UInt32(w)})
+		}
+		rcfg := &v3routepb.RouteConfiguration{Name: "rc", VirtualHosts: []*v3routepb.VirtualHost{{Name: "vh", Routes: []*v3routepb.Route{{
+			Match: &v3routepb.RouteMatch{PathSpecifier: &v3routepb.RouteMatch_Prefix{Prefix: "/"}},
+			Action: &v3routepb.Route_Route{Route: &v3routepb.RouteAction{ClusterSpecifier: &v3routepb.RouteAction_WeightedClusters{
+				WeightedClusters: &v3routepb.WeightedCluster{Clusters: cls}}}}}}}}}
+		res, err := xdsresource.UnmarshalRDS([]*anypb.Any{mustAny(rcfg)})
+		if err != nil {
+			return nil
+		}
+		return res["rc"]
+	}
+	stub.res[stubKey{xdsresource.RouteConfigType, "rc"}] = table(ws0)
+	stub.res[stubKey{xdsresource.ListenerType, "svc"}] = &xdsresource.ListenerResource{
+		NetworkFilters: []*xdsresource.NetworkFilter{{FilterType: xdsresource.NetworkFilterTypeHTTP, RouteConfigName: "rc"}}}
+	router := xdssuite.NewXDSRouter()
+	stub.afterGet = map[stubKey]interface{}{{xdsresource.RouteConfigType, "rc"}: table(ws1)}
+	to := rpcinfo.NewEndpointInfo("svc", "method", nil, nil)
+	ri := rpcinfo.NewRPCInfo(nil, to, rpcinfo.NewInvocation("svc", "method", "pkg"), rpcinfo.NewRPCConfig(), nil)
+	_, _ = router.Route(context.Background(), ri) // the call that reads the old table while the new one arrives
+	counts = make([]int, len(ws1))
+	for i := 0; i < n; i++ {
+		var rr *xdssuite.RouteResult
+		var rerr error
+		if p, _ := recoverTo(func() { rr, rerr = router.Route(context.Background(), ri) }); p || rerr != nil || rr == nil {
+			errs++
+			continue
+		}
+		var j int
+		if _, err := fmt.Sscanf(rr.ClusterPicked, "c%d", &j); err == nil && j < len(counts) {
+			counts[j]++
+		} else {
+			foreign++
+		}
+	}
+	return
 }
